@@ -882,6 +882,73 @@ fn norm_env(mut m: Vec<Vec<(String, String)>>) -> Vec<Vec<(String, String)>> {
     m
 }
 
+/// Changes files: getters applied to parsed text (the view has one setter and no access to its paragraph).
+fn check_changes(c: &Case, obs: &mut Obs) -> Result<(), Violation> {
+    use debian_control::lossless::changes::Changes;
+    let seg = match segmenter::segment(&c.text) {
+        Some(s) => s,
+        None => return Ok(()),
+    };
+    let paras = segmenter::paragraphs(&seg);
+    if paras.len() != 1 {
+        return Ok(());
+    }
+    let raw = |name: &str| paras[0].iter().find(|e| e.0 == name).map(|e| e.1.clone());
+    let plan = ReadPlan { steps: vec![crate::core::io::ReadStep::Chunk(3), crate::core::io::ReadStep::Eintr, crate::core::io::ReadStep::Chunk(5)], cut: None };
+    probe::at("Changes::read");
+    obs.prestate = "raw-text".into();
+    let mut r = SimReader::new(c.text.as_bytes(), &plan);
+    let mut ch = match Changes::read(&mut r) {
+        Ok(c) => c,
+        Err(_) => {
+            obs.count("reach.init_skipped");
+            return Ok(());
+        }
+    };
+    obs.io(&r.fired);
+    let ws = |s: String| s.split_whitespace().map(|x| x.to_string()).collect::<Vec<_>>();
+    macro_rules! same {
+        ($label:expr, $got:expr, $want:expr) => {{
+            probe::at(concat!("Changes.", $label));
+            obs.step();
+            obs.count("op.getter_on_raw_text");
+            let g = $got;
+            let w = $want;
+            if g != w {
+                return Err(v("getter-on-raw-text", concat!("Changes.", $label), "raw-text", format!("getter returns {:?}, documented reading of the raw field {:?} (text {:?})", g, w, c.text)));
+            }
+        }};
+    }
+    same!("format", ch.format(), raw("Format"));
+    same!("source", ch.source(), raw("Source"));
+    same!("binary", ch.binary(), raw("Binary").map(ws));
+    same!("architecture", ch.architecture(), raw("Architecture").map(ws));
+    same!("version", ch.version().map(|x| x.to_string()), raw("Version"));
+    same!("distribution", ch.distribution(), raw("Distribution"));
+    same!("urgency", ch.urgency().map(|u| u.to_string()), raw("Urgency").map(|u| u.to_lowercase()));
+    same!("maintainer", ch.maintainer(), raw("Maintainer"));
+    same!("changed_by", ch.changed_by(), raw("Changed-By"));
+    same!("description", ch.description(), raw("Description"));
+    let triples = |s: String| s.lines().map(|l| l.split_whitespace().collect::<Vec<_>>().join(" ")).collect::<Vec<_>>();
+    same!("checksums_sha1", ch.checksums_sha1().map(|x| x.iter().map(|y| y.to_string()).collect::<Vec<_>>()), raw("Checksums-Sha1").map(triples));
+    same!("checksums_sha256", ch.checksums_sha256().map(|x| x.iter().map(|y| y.to_string()).collect::<Vec<_>>()), raw("Checksums-Sha256").map(triples));
+    same!("files", ch.files().map(|x| x.iter().map(|y| y.to_string()).collect::<Vec<_>>()), raw("Files").map(triples));
+    // the one setter
+    for ev in &c.events {
+        if let Ev::Set { arg, .. } = ev {
+            probe::at("Changes.set_format");
+            obs.count("op.setter");
+            ch.set_format(arg.s());
+            if ch.format().as_deref() != Some(arg.s()) {
+                return Err(v("getter-after-setter", "Changes.set_format", "field-present", format!("set_format({:?}) then format() = {:?}", arg.s(), ch.format())));
+            }
+            same!("source(after set_format)", ch.source(), raw("Source"));
+        }
+    }
+    obs.state(key_of(&["changes", &paras[0].len().to_string()]));
+    Ok(())
+}
+
 fn gen_arg(rng: &mut Rng, g: G, seq: usize) -> Arg {
     let w = |rng: &mut Rng| -> String {
         let mut s = format!("w{seq}");
@@ -957,8 +1024,8 @@ impl Scenario for C15 {
     const LEVEL: &'static str = "exploration";
     fn runs(tier: Tier) -> u64 {
         match tier {
-            Tier::Quick => 250_000,
-            Tier::Thorough => 6_000_000,
+            Tier::Quick => 150_000,
+            Tier::Thorough => 3_000_000,
         }
     }
     fn rule() -> &'static str {
@@ -980,7 +1047,7 @@ impl Scenario for C15 {
     }
 
     fn generate(rng: &mut Rng, _tier: Tier, k: u64) -> Case {
-        let kinds = ["control", "apt-source", "apt-package", "apt-release", "buildinfo", "copyright", "dep3"];
+        let kinds = ["control", "apt-source", "apt-package", "apt-release", "buildinfo", "copyright", "dep3", "changes"];
         let kind = kinds[(k as usize) % kinds.len()];
         let mut text = typed::instance(rng, kind);
         if kind == "control" && rng.chance(1, 3) {
@@ -997,6 +1064,11 @@ impl Scenario for C15 {
             text = String::new();
         }
         let mut model = segmenter::segment(&text).map(|s| segmenter::paragraphs(&s)).unwrap_or_default();
+        if kind == "changes" {
+            let n = rng.below(3);
+            let events = (0..n).map(|i| Ev::Set { view: 0, row: "Changes.set_format".into(), arg: Arg::S(format!("1.{i}")) }).collect();
+            return Case { kind: kind.to_string(), text, events };
+        }
         let table = rows();
         let nsteps = 1 + rng.below(8);
         let mut events = Vec::new();
@@ -1086,6 +1158,9 @@ impl Scenario for C15 {
 
     fn execute(c: &Case, obs: &mut Obs) -> Result<(), Violation> {
         let table = rows();
+        if c.kind == "changes" {
+            return check_changes(c, obs);
+        }
         probe::at("open");
         let mut l = match open(&c.kind, &c.text) {
             Some(l) => l,
@@ -1119,6 +1194,25 @@ impl Scenario for C15 {
                     obs.count("op.getter_on_raw_text");
                     if got != want {
                         return Err(v("getter-on-raw-text", &format!("{}.{}", row.view, row.accessor), "raw-text", format!("field {} with raw text {:?}: getter returns {:?}, documented reading {:?}", row.field, raw, got, want)));
+                    }
+                }
+            }
+        }
+        if let Doc::Cr(cr) = &l.doc {
+            probe::at("copyright getters");
+            obs.prestate = "raw-text".into();
+            if let (Some(h), Some(p0)) = (cr.header(), l.model.first()) {
+                let want = p0.iter().find(|e| e.0 == "Format").or_else(|| p0.iter().find(|e| e.0 == "Format-Specification")).map(|e| e.1.clone());
+                if h.format_string() != want {
+                    return Err(v("getter-on-raw-text", "copyright::Header.format_string", "raw-text", format!("format_string() = {:?}, raw field {:?}", h.format_string(), want)));
+                }
+            }
+            let files_paras: Vec<&Vec<(String, String)>> = l.model.iter().filter(|p| p.iter().any(|e| e.0 == "Files")).collect();
+            for (k, fp) in cr.iter_files().enumerate() {
+                if let Some(p) = files_paras.get(k) {
+                    let want: Vec<String> = p.iter().find(|e| e.0 == "Files").map(|e| e.1.split_whitespace().map(|x| x.to_string()).collect()).unwrap_or_default();
+                    if fp.files() != want {
+                        return Err(v("getter-on-raw-text", "copyright::FilesParagraph.files", "raw-text", format!("files() = {:?}, documented reading {:?}", fp.files(), want)));
                     }
                 }
             }
@@ -1419,6 +1513,10 @@ impl Scenario for C15 {
             obs.nontrivial = Some(key_of(&[&serde_json::to_string(c).unwrap()]));
         }
         Ok(())
+    }
+
+    fn hash_sensitive() -> bool {
+        true
     }
 
     fn shrink(c: &Case) -> Vec<Case> {
